@@ -636,7 +636,7 @@ class DeepDiff(ResultDict, SerializationMixin, DistanceMixin, DeepDiffProtocol, 
         else:
             t1_keys = SetOrdered([key for key in t1 if not self._skip_this_key(level, key)])
             t2_keys = SetOrdered([key for key in t2 if not self._skip_this_key(level, key)])
-        if self.ignore_string_type_changes or self.ignore_numeric_type_changes or self.ignore_string_case:
+        if self.ignore_string_type_changes or self.ignore_numeric_type_changes or self.ignore_string_case or self.use_enum_value:
             t1_clean_to_keys = self._get_clean_to_keys_mapping(keys=t1_keys, level=level)
             t2_clean_to_keys = self._get_clean_to_keys_mapping(keys=t2_keys, level=level)
             t1_keys = SetOrdered(t1_clean_to_keys.keys())
